@@ -62,6 +62,19 @@ Definition partition_ok (P : crs) : bool :=
 Definition unaggregated_rows (P : crs) : list nat :=
   map fst (filter (fun ir => match snd ir with [] => true | _ => false end) (indexed (rows P))).
 
+(* strength of connection of pmis::conn_strength: j != i and eps^2 a_ii a_jj < a_ij^2.
+   "each non-isolated unknown is in exactly one aggregate": a row of P is empty exactly when the
+   unknown has no strong off-diagonal connection (partition_ok gives "at most one") *)
+Definition strong_row (dia : vec) (eps2 : S) (i : nat) (r : row S) : bool :=
+  existsb (fun e => negb (Nat.eqb (fst e) i) &&
+                    sltb (eps2 * vget dia i * vget dia (fst e)) (snd e * snd e)) r.
+Definition isolated_ok (A P : crs) (eps2 : S) : bool :=
+  let dia := diagonal A false (vzero (nrows A)) in
+  Nat.eqb (nrows A) (nrows P) &&
+  forallb (fun irp => let '(i, (ra, rp)) := irp in
+                      Bool.eqb (is_nil rp) (negb (strong_row dia eps2 i ra)))
+          (indexed (combine (rows A) (rows P))).
+
 End Oracles.
 
 (* ====================================================================
